@@ -222,12 +222,13 @@ def ast_cache_dir():
     d = os.path.join(base, C.src_hash())
     if not os.path.isdir(d):
         os.makedirs(d, exist_ok=True)
-        # keep the two most recent source hashes only
-        import shutil
-        old = sorted((x for x in os.listdir(base) if os.path.isdir(os.path.join(base, x)) and x != C.src_hash()),
-                     key=lambda x: os.path.getmtime(os.path.join(base, x)))
-        for x in old[:-1]:
-            shutil.rmtree(os.path.join(base, x), ignore_errors=True)
+        # drop caches of other source hashes that have not been used for a day (never one that a
+        # concurrent run with another VERIF_REPO may be using)
+        import shutil, time
+        for x in os.listdir(base):
+            px = os.path.join(base, x)
+            if os.path.isdir(px) and x != C.src_hash() and time.time() - os.path.getmtime(px) > 86400:
+                shutil.rmtree(px, ignore_errors=True)
     return d
 
 
@@ -286,10 +287,15 @@ def fetch_ast(fn, relfile):
             found = prune(o)
     if found is None:
         raise Unsupported("no definition of %s in %s" % (fn, relfile))
-    tmp = cache + ".tmp%d" % os.getpid()
-    with open(tmp, "w") as f:
-        json.dump(found, f)
-    os.rename(tmp, cache)
+    import threading
+    os.makedirs(os.path.dirname(cache), exist_ok=True)
+    tmp = cache + ".tmp%d.%d" % (os.getpid(), threading.get_ident())
+    try:
+        with open(tmp, "w") as f:
+            json.dump(found, f)
+        os.rename(tmp, cache)
+    except OSError:
+        pass        # the cache is an optimisation only
     return found
 
 
@@ -1284,8 +1290,10 @@ UNSUPPORTED = []
 
 def translate_all():
     del UNSUPPORTED[:]
+    uniq = sorted({(r["fn"], r["file"]) for r in ROUTINES})
     with ThreadPoolExecutor(C.NCPU) as ex:
-        asts = list(ex.map(lambda r: fetch_ast(r["fn"], r["file"]), ROUTINES))
+        got = dict(zip(uniq, ex.map(lambda k: fetch_ast(*k), uniq)))   # a missing routine raises
+    asts = [got[(r["fn"], r["file"])] for r in ROUTINES]
     names = set()
     for a in asts:
         enum_names(a, names)
